@@ -2,119 +2,75 @@ package main
 
 import (
 	"fmt"
+	"go/constant"
 	"go/token"
 	"go/types"
+	"sort"
 	"strings"
 
 	"golang.org/x/tools/go/ssa"
 )
 
 // C13 — lock primitives.
+//
+// Every construct is found by role (c13roles.go) and every path rule runs on
+// the path explorer (c13explore.go), which follows same-module callees,
+// closures, bound methods and deferred calls as if they were written inline.
 
 func init() { register("C13", checkC13) }
 
 func checkC13(c *Ctx) {
 	r, p := c.R, c.P
-	r.Explanation = "Decides structural necessary conditions of C13: (G) the per-key tables fifoMap.items / mapItem.ilen, cmap.mutex.items and OuterCancel.rcancels/rcancelx are only touched under their table lock; (B) a blocking acquisition of a per-key lock never happens while the table lock is held; (RC) an entry of a per-key lock table is removed only under a 'no holders or waiters' test (refcount == 0) — without it a waiter that already looked the lock up and a later arrival that creates a fresh one hold the same key together; (P) fifoMap.Lock counts the caller in exactly once before blocking and Unlock counts it out exactly once; (CAP) the channel mutexes (fifo.Mutex.lock, lock.Context.locked, OuterCancel.lock) are created with capacity exactly 1 and Lock sends / Unlock receives unconditionally; (CTX) lock.Context: a return of the context error holds neither token nor RWMutex, a nil return holds both, Unlock/RUnlock release both; (OC) OuterCancel.handleHold: every return has either released the slot or handed its release out in the response's cancel closure, the writer grant is preceded by the cancel fan-out and wg.Wait, the reader's wg.Add(1) happens with the slot held, rcancel does wg.Done only under !done and sets done, rcancelGrace calls rcancel only after its three-way wait on time.After(gracefulTimeout)/closeCh/doneCh, and readers are cancelled with cancelErr. NOT decided: mutual exclusion and FIFO order as runtime facts (FIFO rests on the Go runtime's channel queue order), cancellation causes over all histories, grace timing."
-	r.Assumptions = append(r.Assumptions, "type-based lock identity: all per-key locks of one table are one abstract lock", "blocked senders on a channel are served in arrival order by the Go runtime (FIFO claim rests on this; not analysed)")
-	r.Rule("C13.G-guard", "per-key tables and refcounts only under the table lock", 12)
-	r.Rule("C13.DC-double-checked-create", "a per-key lock is inserted into the table only in the critical section that (re-)checked its absence", 10)
+	r.Explanation = "Decides structural necessary conditions of C13. Constructs are resolved by role from the exported API (fifo.Mutex/New/NewMap, cmap.NewMutex, lock.Context, lock.OuterCancel and their exported methods) through types and dataflow, never by unexported names; path rules follow same-module callees, closures, bound methods and deferred calls as if inlined and resolve returned constants, so helper extraction/inlining, closure<->method, guard inversion, defer<->explicit and renames do not matter. (G) the per-key tables of the fifo map and the cmap mutex map, the fifo entry count and OuterCancel's reader table/index are only touched under their table lock; (DC) a per-key lock is inserted only while the table write lock is held and the key was observed absent under that same hold; (B) Lock/RLock of the maps acquire a per-key lock on every returning path and never while the table lock is held; (RC) an entry is removed only under a 'count == 0' observation made under the same hold (for the cmap map no count exists: known findings); (P) the fifo map's Lock counts the caller in exactly once, in the critical section that looked the entry up, before blocking, and Unlock counts it out exactly once; (CAP) the channel mutexes are created with capacity exactly 1 and fifo.Mutex.Lock sends / Unlock receives on every path; (CTX) lock.Context: a nil return holds token+RWMutex, any other return holds nothing, an error return exists, Unlock/RUnlock release both; (OC) OuterCancel's request loop: at the end of every request the slot is released or its release was handed out in the response, an error response is sent holding nothing, the writer grant is sent with the slot held after the cancel fan-out and a wg.Wait made while holding the slot, the reader grant is sent with the slot held after wg.Add(1), the reader release does wg.Done at most once (once-guard under the table lock, or sync.Once/atomic), removes its table entry and cancels with the configured cause, and the function registered in the reader table reaches the cancellation only after a wait on {timer(gracefulTimeout) started in that function, shutdown channel, channel closed by the release}. NOT decided: mutual exclusion and FIFO order as runtime facts (FIFO rests on the Go runtime's channel queue order), cancellation causes over all histories, grace timing."
+	r.Assumptions = append(r.Assumptions, "type-based lock identity: all per-key locks of one table are one abstract lock", "blocked senders on a channel are served in arrival order by the Go runtime (FIFO claim rests on this; not analysed)", "objects of one type are not distinguished (one abstract entry / reader per type)")
+	r.Rule("C13.G-guard", "per-key tables and refcounts only under the table lock", 9)
+	r.Rule("C13.DC-double-checked-create", "a per-key lock is inserted into the table only in the critical section that (re-)checked its absence", 3)
 	r.Rule("C13.B-blocking-outside", "blocking per-key Lock/RLock is called with the table lock released", 3)
 	r.Rule("C13.RC-refcount-removal", "per-key entry removed only under a refcount==0 (no holders or waiters) test", 3)
-	r.Rule("C13.P-count-pairing", "fifoMap.Lock increments ilen exactly once before blocking; Unlock decrements exactly once", 2)
+	r.Rule("C13.P-count-pairing", "fifo map Lock increments the entry count exactly once before blocking; Unlock decrements exactly once", 2)
 	r.Rule("C13.CAP-chan-mutex", "channel mutexes have capacity 1; Lock sends, Unlock receives, unconditionally", 5)
 	r.Rule("C13.CTX-context-lock", "lock.Context: error return holds nothing, nil return holds token+RWMutex; unlock releases both", 4)
 	r.Rule("C13.OC-outercancel", "OuterCancel hold handling: slot released or handed out per path; writer waits for readers; reader accounting once", 7)
 
-	mod := p.ModPath
-	fifo := mod + "/concurrency/fifo"
-	cm := mod + "/concurrency/cmap"
-	lk := mod + "/concurrency/lock"
 	e := c.Locks()
+	ro := resolveC13Roles(p)
+	fmapLock := ro.pickGuard(e, ro.fmapLockCands, ro.fmapItems, "the fifo map")
+	cmLock := ro.pickGuard(e, ro.cmLockCand, ro.cmItems, "the cmap mutex map")
+	ro.fmapLock, ro.cmLock = fmapLock, cmLock
+	ro.ocGuard = ro.pickGuard(e, ro.ocGuardCandidates, ro.ocTable, "OuterCancel's reader table")
+	r.Stats["c13_roles"] = map[string]string{
+		"fifo.Mutex slot": ro.fifoSlot.String(), "fifo map type": namedKey(ro.fmap), "fifo map table": ro.fmapItems.String(), "fifo map lock": ro.fmapLock.String(),
+		"fifo entry count": ro.fitemCount.String(), "fifo entry mutex": ro.fitemMutex.String(),
+		"cmap type": namedKey(ro.cm), "cmap table": ro.cmItems.String(), "cmap lock": ro.cmLock.String(),
+		"Context token": ro.ctxTok.String(), "Context rwmutex": ro.ctxRW.String(),
+		"OuterCancel slot": ro.ocSlot.String(), "request chan": ro.ocReq.String(), "shutdown chan": ro.ocClose.String(), "reader table": ro.ocTable.String(),
+		"reader index": ro.ocNext.String(), "table lock": ro.ocGuard.String(), "cause": ro.ocCause.String(), "grace": ro.ocGrace.String(),
+		"hold": namedKey(ro.hold), "hold response": namedKey(ro.resp),
+	}
 
 	specs := []GuardSpec{
-		{Field: FieldID{fifo + ".fifoMap", "items"}, Lock: fifo + ".fifoMap.lock"},
-		{Field: FieldID{fifo + ".mapItem", "ilen"}, Lock: fifo + ".fifoMap.lock"},
-		{Field: FieldID{cm + ".mutex", "items"}, Lock: cm + ".mutex.lock"},
-		{Field: FieldID{lk + ".OuterCancel", "rcancels"}, Lock: lk + ".OuterCancel.rcancelLock"},
-		{Field: FieldID{lk + ".OuterCancel", "rcancelx"}, Lock: lk + ".OuterCancel.rcancelLock"},
+		{Field: ro.fmapItems, Lock: c13LockID(ro.fmapLock)},
+		{Field: ro.fitemCount, Lock: c13LockID(ro.fmapLock)},
+		{Field: ro.cmItems, Lock: c13LockID(ro.cmLock)},
+		{Field: ro.ocTable, Lock: c13LockID(ro.ocGuard)},
+		{Field: ro.ocNext, Lock: c13LockID(ro.ocGuard)},
 	}
-	CheckGuardedBy(p, e, r, "C13.G-guard", specs)
-	// creation of a per-key lock is double-checked: the section that inserts
-	// re-reads the table under the write lock (otherwise two first-time lockers
-	// of one key each install and lock their own mutex)
-	CheckSingleSection(p, e, r, "C13.DC-double-checked-create", []GuardSpec{specs[0], specs[2]})
+	c13CheckGuards(c, ro, "C13.G-guard", specs)
 
-	// B: blocking per-key acquisition outside the table lock
-	perKey := map[string]string{
-		fifo + ".mapItem.mutex": fifo + ".fifoMap.lock",
-		cm + ".mutex.items[]":   cm + ".mutex.lock",
+	tables := []*c13Table{
+		{ro: ro, typ: ro.fmap, canon: "concurrency/fifo.fifoMap", canonItems: "fifo.fifoMap.items", lock: ro.fmapLock, items: ro.fmapItems, count: ro.fitemCount, pairing: true},
+		{ro: ro, typ: ro.cm, canon: "concurrency/cmap.mutex", canonItems: "cmap.mutex.items", lock: ro.cmLock, items: ro.cmItems,
+			outside: map[string]string{
+				"Delete": "bare Delete is outside the statement's quantifier (acquire, release, delete-and-release, cancellation); documented as 'removes the mutex'",
+				"Clear":  "bare Clear is outside the statement's quantifier; documented as 'removes all mutexes'",
+			}},
 	}
-	for _, fn := range p.Funcs {
-		allInstrs(fn, func(in ssa.Instruction) {
-			call, ok := in.(*ssa.Call)
-			if !ok {
-				return
-			}
-			id, kind, ok := e.lockOp(call)
-			if !ok || (kind != opLock && kind != opRLock) {
-				return
-			}
-			table, isPerKey := perKey[id]
-			if !isPerKey {
-				return
-			}
-			held := e.At(call)[table]
-			r.Check(held == ModeNone, "C13.B-blocking-outside", fmt.Sprintf("%s blocking %s", FuncName(p, fn), shortID(id)), p.Pos(call.Pos()),
-				"table lock released before blocking on the per-key lock", "blocks on the per-key lock while holding the table lock "+shortID(table)+": every other key is stalled and an Unlock that needs the table lock can never run (deadlock)")
-		})
+	for _, t := range tables {
+		c13CheckTable(c, t)
 	}
-
-	// RC: refcount-guarded removal
-	tables := map[FieldID]FieldID{ // table field -> refcount field (zero value = none exists)
-		{fifo + ".fifoMap", "items"}: {fifo + ".mapItem", "ilen"},
-		{cm + ".mutex", "items"}:     {},
-	}
-	outside := map[string]string{
-		"concurrency/cmap.mutex.Delete": "bare Delete is outside the statement's quantifier (acquire, release, delete-and-release, cancellation); documented as 'removes the mutex'",
-		"concurrency/cmap.mutex.Clear":  "bare Clear is outside the statement's quantifier; documented as 'removes all mutexes'",
-	}
-	for _, fn := range p.Funcs {
-		fname := FuncName(p, fn)
-		for _, a := range FieldAccesses(fn, func(id FieldID) bool { _, ok := tables[id]; return ok }) {
-			if a.Fresh || a.Kind != AccWrite {
-				continue
-			}
-			if a.What != "delete" && a.What != "clear" && a.What != "store" {
-				continue // map update = insertion
-			}
-			rc := tables[a.ID]
-			guarded := false
-			if rc.Field != "" {
-				for _, dc := range domConds(a.Instr.Block()) {
-					if cmp, ok := decodeCond(dc.If.Cond, dc.Branch); ok && cmp.Op == token.EQL {
-						if id, _, ok := fieldOfValue(cmp.X); ok && id == rc {
-							if k, ok := cmp.Y.(*ssa.Const); ok && k.Value != nil && k.Uint64() == 0 {
-								guarded = true
-							}
-						}
-					}
-				}
-			}
-			construct := fname + " removes " + a.ID.String()
-			if why, ok := outside[fname]; ok && !guarded {
-				r.Note("C13.RC: %s (%s at %s) drops per-key entries without a holders/waiters test — not armed: %s", fname, a.What, p.Pos(instrPos(a.Instr)), why)
-				continue
-			}
-			r.Check(guarded, "C13.RC-refcount-removal", construct, p.Pos(instrPos(a.Instr)),
-				"removal dominated by "+rc.String()+" == 0", "per-key lock entry is removed ("+a.What+") without a 'no holders or waiters' test: a goroutine that already looked the lock up and a later arrival that creates a fresh lock hold the same key at once")
-		}
-	}
-
-	c13Pairing(c, fifo)
-	c13ChanMutex(c, fifo, lk)
-	c13ContextLock(c, lk)
-	c13OuterCancel(c, lk)
+	c13ChanMutex(c, ro)
+	c13ContextLock(c, ro)
+	c13OuterCancel(c, ro)
 
 	c.Fixture("locks", func(fp *Prog, fr *Report) {
 		fe := NewLockEngine(fp)
@@ -122,9 +78,985 @@ func checkC13(c *Ctx) {
 		CheckGuardedBy(fp, fe, fr, "guard", fixtureLockSpecs(fp.ModPath))
 		CheckSingleSection(fp, fe, fr, "section", fixtureLockSpecs(fp.ModPath))
 	})
+	c.Fixture("c13x", func(fp *Prog, fr *Report) { c13Fixture(fp, fr) })
 }
 
-// countStores classifies a store to field f: +1, -1 or 0 (other).
+// ---------------------------------------------------------------------------
+// shared small helpers
+
+// c13LockCall recognises a Lock/RLock/Unlock/RUnlock call on a lock type
+// (sync.Mutex, sync.RWMutex, fifo.Mutex) and returns the receiver.
+func c13LockCall(ro *c13Roles, c ssa.CallInstruction) (lockOpKind, ssa.Value, bool) {
+	return c13LockCallX(ro, nil, c)
+}
+
+// c13LockCallX additionally sees through a sync.Locker (or any interface with
+// these methods) whose dynamic value is known on the path to be a lock.
+func c13LockCallX(ro *c13Roles, x *C13Ctx, c ssa.CallInstruction) (lockOpKind, ssa.Value, bool) {
+	cc := c.Common()
+	if cc.IsInvoke() {
+		if x == nil || cc.Method == nil {
+			return 0, nil, false
+		}
+		mi, ok := c13StripIface(x, cc.Value)
+		if !ok {
+			// rw.RLocker(): a sync.Locker whose Lock/Unlock are rw.RLock/RUnlock
+			if call, isCall := c13StripConv(x.Resolve(cc.Value)).(*ssa.Call); isCall && callIs(call, "sync", "RWMutex", "RLocker") && len(call.Call.Args) == 1 {
+				switch cc.Method.Name() {
+				case "Lock":
+					return opRLock, call.Call.Args[0], true
+				case "Unlock":
+					return opRUnlock, call.Call.Args[0], true
+				}
+			}
+			return 0, nil, false
+		}
+		if !ro.isLockType(mi.Type()) {
+			return 0, nil, false
+		}
+		switch cc.Method.Name() {
+		case "Lock":
+			return opLock, mi, true
+		case "RLock":
+			return opRLock, mi, true
+		case "Unlock":
+			return opUnlock, mi, true
+		case "RUnlock":
+			return opRUnlock, mi, true
+		}
+		return 0, nil, false
+	}
+	f := staticCallee(c)
+	if f == nil && x != nil {
+		// a function value known on the path: a method expression
+		// ((*sync.RWMutex).Lock handed to a helper) or a method value
+		f = x.FuncTarget(cc.Value)
+	}
+	if f == nil || f.Signature.Recv() == nil || len(cc.Args) == 0 {
+		return 0, nil, false
+	}
+	if !ro.isLockType(f.Signature.Recv().Type()) {
+		return 0, nil, false
+	}
+	switch f.Name() {
+	case "Lock":
+		return opLock, cc.Args[0], true
+	case "RLock":
+		return opRLock, cc.Args[0], true
+	case "Unlock":
+		return opUnlock, cc.Args[0], true
+	case "RUnlock":
+		return opRUnlock, cc.Args[0], true
+	}
+	return 0, nil, false
+}
+
+// c13IsField: v (a value or an address) denotes field f on the current path.
+func c13IsField(x *C13Ctx, v ssa.Value, f FieldID) bool {
+	id, ok := c13FieldOf(x, v)
+	return ok && id == f
+}
+
+func c13FieldOf(x *C13Ctx, v ssa.Value) (FieldID, bool) {
+	if x != nil {
+		v = x.Resolve(v)
+	}
+	v = c13StripConv(v)
+	if id, _, ok := fieldOfValue(v); ok {
+		return id, true
+	}
+	if f, ok := v.(*ssa.Field); ok {
+		return fieldIDOfField(f), true
+	}
+	return FieldID{}, false
+}
+
+// c13LockIs: the lock denoted by recv is the lock field f.
+func c13LockIs(x *C13Ctx, recv ssa.Value, f FieldID) bool {
+	if id, ok := lockIdent(x.Resolve(recv)); ok && id == c13LockID(f) {
+		return true
+	}
+	if id, ok := lockIdent(recv); ok && id == c13LockID(f) {
+		return true
+	}
+	return false
+}
+
+// c13ChanKey is an identity for the channel denoted by v on the current path.
+func c13ChanKey(x *C13Ctx, v ssa.Value) string {
+	r := c13StripConv(x.Resolve(v))
+	for i := 0; i < 6; i++ { // conversions (chan T -> <-chan T) may sit between the hops
+		n := c13StripConv(x.Resolve(r))
+		if n == r {
+			break
+		}
+		r = n
+	}
+	if id, ok := c13FieldOf(nil, r); ok {
+		return c13ChanID(c13CanonChan(id))
+	}
+	switch t := r.(type) {
+	case *ssa.MakeChan:
+		return "make:" + c13ValueKey(t)
+	case *ssa.UnOp:
+		if t.Op == token.MUL {
+			a := x.Resolve(t.X)
+			if cell := cellOf(a); cell != nil {
+				return "cell:" + c13ValueKey(cell)
+			}
+		}
+	}
+	return "val:" + c13ValueKey(r)
+}
+
+func c13IsConstInt(v ssa.Value, n int64) bool {
+	k, ok := v.(*ssa.Const)
+	if !ok || k.Value == nil || k.IsNil() {
+		return false
+	}
+	if b, ok := k.Type().Underlying().(*types.Basic); !ok || b.Info()&types.IsInteger == 0 {
+		return false
+	}
+	return k.Int64() == n
+}
+
+func c13IsConstBool(v ssa.Value, b bool) bool {
+	k, ok := v.(*ssa.Const)
+	if !ok || k.Value == nil {
+		return false
+	}
+	if bt, ok := k.Type().Underlying().(*types.Basic); !ok || bt.Kind() != types.Bool && bt.Kind() != types.UntypedBool {
+		return false
+	}
+	return (k.Value.String() == "true") == b
+}
+
+type c13Unf struct{ list []string }
+
+func (u *c13Unf) add(p *Prog, call ssa.CallInstruction) {
+	s := callDesc(call) + " at " + p.Pos(instrPos(call))
+	for _, o := range u.list {
+		if o == s {
+			return
+		}
+	}
+	u.list = append(u.list, s)
+}
+
+// ---------------------------------------------------------------------------
+// per-key lock tables: B, DC, RC, P
+
+type c13Table struct {
+	ro         *c13Roles
+	typ        *types.Named
+	canon      string // canonical construct prefix of the implementation type (role label, stable under renames)
+	canonItems string
+	lock       FieldID
+	items      FieldID
+	count      FieldID // zero value: the table has no holders/waiters count
+	pairing    bool
+	outside    map[string]string
+}
+
+const (
+	c13tbW      = 1 << iota // table lock held exclusively
+	c13tbR                  // table lock held shared
+	c13tbAbsent             // key observed absent under the current exclusive hold
+	c13tbFresh              // entry looked up / inserted under the current hold
+	c13tbZero               // count observed zero under the current hold
+	c13tbAcqW               // a per-key lock was acquired exclusively
+	c13tbAcqR               // a per-key lock was acquired shared
+	c13tbCnt0               // count adjustments so far: 2 bits (0, 1, 2+, 3 = other store)
+	c13tbCnt1
+	c13tbOne     // count observed == 1 under the current hold (zero after the count-out that follows)
+	c13tbPending // an entry was removed under "count == 1": the count-out must follow in this hold
+)
+
+func c13tbCount(st uint64) int { return int(st/c13tbCnt0) & 3 }
+func c13tbSetCount(st uint64, n int) uint64 {
+	return st&^(c13tbCnt0|c13tbCnt1) | uint64(n&3)*c13tbCnt0
+}
+
+type c13RootRes struct {
+	name                        string
+	fn                          *ssa.Function
+	acqSites, acqBad            []string
+	insSites, insBad            []string
+	remSites, remBad            []string
+	pairBad                     []string
+	pairPoints                  int
+	retNoAcq                    []string
+	nReturns                    int
+	unf                         c13Unf
+	incomplete                  []string
+	firstAcq, firstIns, firstRm token.Pos
+	countEscapes                []string // the count field's address is handed to a call (atomic op, helper): not modelled
+}
+
+func c13CheckTable(c *Ctx, t *c13Table) {
+	r, p, ro := c.R, c.P, t.ro
+	var roots []*ssa.Function
+	names := map[*ssa.Function]string{}
+	for i := 0; i < t.typ.NumMethods(); i++ {
+		m := t.typ.Method(i)
+		if !m.Exported() {
+			continue
+		}
+		fn := origin(p.SSA.FuncValue(m))
+		if fn == nil || len(fn.Blocks) == 0 {
+			continue
+		}
+		roots = append(roots, fn)
+		names[fn] = t.canon + "." + m.Name()
+	}
+	if len(roots) == 0 {
+		undecided("no exported method of %s resolves", namedKey(t.typ))
+	}
+	visited := map[ssa.Instruction]bool{}
+	var results []*c13RootRes
+	for _, fn := range roots {
+		results = append(results, c13ExploreTableRoot(p, t, fn, names[fn], fn.Name(), 0, visited))
+	}
+	// table operations in functions no exported method reaches (goroutine
+	// bodies, dead helpers) are examined on their own
+	for _, fn := range ro.pkgFuncs(t.typ) {
+		need := false
+		allInstrs(fn, func(in ssa.Instruction) {
+			if visited[in] {
+				return
+			}
+			if c13TableOp(t, in) != "" && !c13IsFreshBaseOp(in) {
+				need = true
+			}
+		})
+		if need {
+			entry := uint64(0)
+			switch c.Locks().Entry(fn)[c13LockID(t.lock)] {
+			case ModeW:
+				entry = c13tbW
+			case ModeR:
+				entry = c13tbR
+			}
+			results = append(results, c13ExploreTableRoot(p, t, fn, FuncName(p, fn), "", entry, visited))
+		}
+	}
+	for _, res := range results {
+		short := res.fn.Name()
+		incompl := len(res.unf.list) > 0 || len(res.incomplete) > 0 || len(res.countEscapes) > 0
+		why := ""
+		if incompl {
+			why = "not followed: " + strings.Join(append(append(res.unf.list, res.incomplete...), res.countEscapes...), "; ")
+		}
+		// a finding made on a path with calls that could not be followed (they may
+		// have done what the rule misses) is not positively established
+		violation := func(rule, construct, pos, msg string, wit ...string) {
+			if incompl {
+				r.Undecide("%s: %s — but %s", construct, msg, why)
+				return
+			}
+			r.Violation(rule, construct, pos, msg, wit...)
+		}
+		// B
+		isAcqRoot := names[res.fn] != "" && (short == "Lock" || short == "RLock")
+		if len(res.acqSites) > 0 || isAcqRoot {
+			construct := res.name + " blocking per-key lock"
+			switch {
+			case len(res.acqBad) > 0:
+				violation("C13.B-blocking-outside", construct, p.Pos(res.firstAcq), "blocks on the per-key lock while holding the table lock "+t.lock.String()+": every other key is stalled and an Unlock that needs the table lock can never run (deadlock)", res.acqBad...)
+			case isAcqRoot && len(res.retNoAcq) > 0 && !incompl:
+				r.Violation("C13.B-blocking-outside", construct, p.Pos(res.fn.Pos()), short+" can return without having acquired a per-key lock in the required mode (nothing excludes a second holder)", res.retNoAcq...)
+			case isAcqRoot && (len(res.retNoAcq) > 0 || res.nReturns == 0):
+				r.Undecide("%s: the per-key acquisition was not found on every path (%s)", res.name, why)
+			default:
+				r.OK("C13.B-blocking-outside", construct, p.Pos(res.firstAcq), fmt.Sprintf("%d per-key acquisition(s), each with the table lock released; every return acquired", len(res.acqSites)))
+			}
+		}
+		// DC
+		if len(res.insSites) > 0 {
+			if len(res.insBad) == 0 {
+				r.OK("C13.DC-double-checked-create", res.name+" inserts "+t.canonItems, p.Pos(res.firstIns),
+					fmt.Sprintf("%d insertion path(s), each under the write hold that observed the key absent", len(res.insSites)))
+			} else {
+				violation("C13.DC-double-checked-create", res.name+" inserts "+t.canonItems, p.Pos(res.firstIns),
+					"a per-key lock is installed without having observed the key absent under the same exclusive hold of the table lock: two first-time lockers of one key each install and lock their own mutex", res.insBad...)
+			}
+		}
+		// RC
+		if len(res.remSites) > 0 {
+			construct := res.name + " removes " + t.canonItems
+			if whyOut, ok := t.outside[short]; ok && names[res.fn] != "" && len(res.remBad) > 0 {
+				r.Note("C13.RC: %s (at %s) drops per-key entries without a holders/waiters test — not armed: %s", res.name, p.Pos(res.firstRm), whyOut)
+			} else {
+				if len(res.remBad) == 0 {
+					r.OK("C13.RC-refcount-removal", construct, p.Pos(res.firstRm), "every removal happens under a "+t.count.String()+" == 0 observation made in the same hold")
+				} else {
+					violation("C13.RC-refcount-removal", construct, p.Pos(res.firstRm),
+						"per-key lock entry is removed without a 'no holders or waiters' test: a goroutine that already looked the lock up and a later arrival that creates a fresh lock hold the same key at once", res.remBad...)
+				}
+			}
+		}
+		// P
+		if t.pairing && names[res.fn] != "" && (short == "Lock" || short == "Unlock") {
+			construct := res.name + " count"
+			switch {
+			case len(res.pairBad) > 0:
+				violation("C13.P-count-pairing", construct, p.Pos(res.fn.Pos()), "the holder/waiter count is not adjusted exactly once on every path", res.pairBad...)
+			case res.pairPoints == 0 || incompl:
+				r.Undecide("%s: count adjustment could not be followed (%s)", res.name, why)
+			default:
+				r.OK("C13.P-count-pairing", construct, p.Pos(res.fn.Pos()), "holder/waiter count adjusted exactly once on every path, in the look-up's critical section")
+			}
+		}
+	}
+}
+
+func c13IsFreshBaseOp(in ssa.Instruction) bool {
+	switch x := in.(type) {
+	case *ssa.MapUpdate:
+		if u, ok := x.Map.(*ssa.UnOp); ok {
+			if fa, ok := u.X.(*ssa.FieldAddr); ok {
+				return isFreshBase(fa.X) && prePublication(in)
+			}
+		}
+	case *ssa.Store:
+		if fa, ok := x.Addr.(*ssa.FieldAddr); ok {
+			return isFreshBase(fa.X) && prePublication(in)
+		}
+	}
+	return false
+}
+
+// c13TableOp classifies (statically) an instruction as an insertion
+// ("insert"), removal ("remove") or replacement ("replace") on the table.
+func c13TableOp(t *c13Table, in ssa.Instruction) string {
+	isItems := func(v ssa.Value) bool {
+		id, ok := c13FieldOf(nil, v)
+		return ok && id == t.items
+	}
+	switch x := in.(type) {
+	case *ssa.MapUpdate:
+		if isItems(x.Map) {
+			return "insert"
+		}
+	case *ssa.Store:
+		if fa, ok := x.Addr.(*ssa.FieldAddr); ok && fieldIDOfAddr(fa) == t.items {
+			return "replace"
+		}
+	case ssa.CallInstruction:
+		if b := builtinName(x); (b == "delete" || b == "clear") && len(x.Common().Args) > 0 && isItems(x.Common().Args[0]) {
+			return "remove"
+		}
+	}
+	return ""
+}
+
+func c13ExploreTableRoot(p *Prog, t *c13Table, fn *ssa.Function, name, short string, entry uint64, visited map[ssa.Instruction]bool) *c13RootRes {
+	ro := t.ro
+	res := &c13RootRes{name: name, fn: fn}
+	hasCount := t.count.Field != ""
+	isItems := func(x *C13Ctx, v ssa.Value) bool { return c13IsField(x, v, t.items) }
+	release := func(x *C13Ctx, st uint64) uint64 {
+		x.DelFact("lookup")
+		x.DelFact("count")
+		x.DelFactsWithPrefix("cntld:")
+		if st&c13tbPending != 0 {
+			res.remBad = append(res.remBad, "an entry is removed under a 'count == 1' test but the count is not decremented before the table lock is released")
+		}
+		return st &^ (c13tbAbsent | c13tbFresh | c13tbZero | c13tbOne | c13tbPending)
+	}
+	curCount := func(x *C13Ctx, v ssa.Value) bool {
+		v = x.Resolve(v)
+		if f := x.Fact("count"); f != nil && f == v {
+			return true
+		}
+		if u, ok := v.(*ssa.UnOp); ok && u.Op == token.MUL {
+			if fa, ok := x.Resolve(u.X).(*ssa.FieldAddr); ok && fieldIDOfAddr(fa) == t.count {
+				_, cur := x.p.facts["cntld:"+c13ValueKey(u)]
+				return cur
+			}
+		}
+		return false
+	}
+	pos := func(in ssa.Instruction) string { return p.Pos(instrPos(in)) }
+	ex := NewC13Explorer(p)
+	hooks := &C13Hooks{
+		Instr: func(x *C13Ctx, in ssa.Instruction, st uint64) uint64 {
+			visited[in] = true
+			switch v := in.(type) {
+			case ssa.CallInstruction:
+				if _, isGo := in.(*ssa.Go); isGo {
+					return st
+				}
+				if kind, recv, ok := c13LockCallX(ro, x, v); ok {
+					if c13LockIs(x, recv, t.lock) {
+						switch kind {
+						case opLock:
+							return st | c13tbW
+						case opRLock:
+							return st | c13tbR
+						case opUnlock:
+							return release(x, st&^c13tbW)
+						case opRUnlock:
+							return release(x, st&^c13tbR)
+						}
+						return st
+					}
+					// a lock that is not the table lock: a per-key lock
+					if kind == opLock || kind == opRLock {
+						site := pos(in) + " in " + FuncName(p, in.Parent())
+						res.acqSites = append(res.acqSites, site)
+						if !res.firstAcq.IsValid() {
+							res.firstAcq = instrPos(in)
+						}
+						if st&(c13tbW|c13tbR) != 0 {
+							res.acqBad = append(res.acqBad, "per-key "+v.Common().Value.Name()+" at "+site+" with the table lock held")
+						}
+						if t.pairing && short == "Lock" {
+							res.pairPoints++
+							if n := c13tbCount(st); n != 1 {
+								res.pairBad = append(res.pairBad, fmt.Sprintf("at the blocking per-key Lock (%s) the caller has been counted in %s times", site, c13CntName(n)))
+							}
+						}
+						if kind == opLock {
+							st |= c13tbAcqW
+						} else {
+							st |= c13tbAcqR
+						}
+					}
+					return st
+				}
+				if hasCount {
+					for _, a := range v.Common().Args {
+						if fa, ok := x.Resolve(a).(*ssa.FieldAddr); ok && fieldIDOfAddr(fa) == t.count {
+							res.countEscapes = append(res.countEscapes, callDesc(v)+" at "+pos(in))
+						}
+					}
+				}
+				switch builtinName(v) {
+				case "delete", "clear":
+					if len(v.Common().Args) > 0 && isItems(x, v.Common().Args[0]) {
+						site := builtinName(v) + " at " + pos(in) + " in " + FuncName(p, in.Parent())
+						res.remSites = append(res.remSites, site)
+						if !res.firstRm.IsValid() {
+							res.firstRm = instrPos(in)
+						}
+						if !hasCount {
+							res.remBad = append(res.remBad, site+": the table keeps no holders/waiters count")
+						} else if st&c13tbZero == 0 {
+							if st&c13tbOne != 0 {
+								st |= c13tbPending // the last holder leaves: legal if the count-out follows in this hold
+							} else {
+								res.remBad = append(res.remBad, site+": not dominated by a "+t.count.String()+" == 0 observation under this hold")
+							}
+						}
+						return st
+					}
+				}
+			case *ssa.Lookup:
+				if isItems(x, v.X) && st&(c13tbW|c13tbR) != 0 {
+					st |= c13tbFresh
+					if st&c13tbW != 0 {
+						x.SetFact("lookup", v)
+						st &^= c13tbAbsent
+					}
+				}
+			case *ssa.MapUpdate:
+				if isItems(x, v.Map) && !c13IsFreshBaseOp(in) {
+					site := pos(in) + " in " + FuncName(p, in.Parent())
+					res.insSites = append(res.insSites, site)
+					if !res.firstIns.IsValid() {
+						res.firstIns = instrPos(in)
+					}
+					switch {
+					case st&c13tbW == 0:
+						res.insBad = append(res.insBad, "insertion at "+site+" without the exclusive table lock")
+					case st&c13tbAbsent == 0:
+						res.insBad = append(res.insBad, "insertion at "+site+" is not preceded by a look-up under this hold that found the key absent")
+					}
+					st |= c13tbFresh
+				}
+			case *ssa.UnOp:
+				if hasCount && v.Op == token.MUL {
+					if fa, ok := x.Resolve(v.X).(*ssa.FieldAddr); ok && fieldIDOfAddr(fa) == t.count {
+						x.SetFact("cntld:"+c13ValueKey(v), nil)
+					}
+				}
+			case *ssa.Store:
+				if fa, ok := x.Resolve(v.Addr).(*ssa.FieldAddr); ok {
+					id := fieldIDOfAddr(fa)
+					if id == t.items && !c13IsFreshBaseOp(in) {
+						site := "replacement of the table at " + pos(in) + " in " + FuncName(p, in.Parent())
+						res.remSites = append(res.remSites, site)
+						if !res.firstRm.IsValid() {
+							res.firstRm = instrPos(in)
+						}
+						res.remBad = append(res.remBad, site+": drops every entry")
+					}
+					if hasCount && id == t.count {
+						val := x.Resolve(v.Val)
+						_, freshOnPath := x.Resolve(fa.X).(*ssa.Alloc) // the entry was allocated on this path
+						d := c13Delta(x, val, t.count, freshOnPath || isFreshBase(fa.X), curCount)
+						x.DelFactsWithPrefix("cntld:")
+						x.SetFact("count", val)
+						if st&c13tbOne != 0 && d == -1 {
+							st = st&^(c13tbOne|c13tbPending) | c13tbZero
+						} else {
+							st &^= c13tbZero | c13tbOne
+						}
+						if t.pairing && (short == "Lock" || short == "Unlock") {
+							want := 1
+							if short == "Unlock" {
+								want = -1
+							}
+							n := c13tbCount(st)
+							switch {
+							case d != want || n == 3:
+								n = 3
+							case n >= 1:
+								n = 2
+							default:
+								n = 1
+							}
+							st = c13tbSetCount(st, n)
+							if short == "Lock" && d == want && st&c13tbFresh == 0 {
+								res.pairBad = append(res.pairBad, "the count-in at "+pos(in)+" is not in the critical section that looked the entry up (the entry can be pruned in between)")
+							}
+							if st&(c13tbW|c13tbR) == 0 {
+								res.pairBad = append(res.pairBad, "the count is adjusted at "+pos(in)+" without the table lock")
+							}
+						}
+					}
+				}
+			}
+			return st
+		},
+		Branch: func(x *C13Ctx, ifi *ssa.If, taken bool, st uint64) uint64 {
+			cond, pol := c13StripNot(x.Resolve(ifi.Cond), taken)
+			cond, pol = c13StripNot(x.Resolve(cond), pol)
+			// found-flag of the look-up made under this exclusive hold
+			if exr, ok := cond.(*ssa.Extract); ok && exr.Index == 1 {
+				if lk, ok := exr.Tuple.(*ssa.Lookup); ok && lk.CommaOk && x.Fact("lookup") == ssa.Value(lk) && !pol && st&c13tbW != 0 {
+					return st | c13tbAbsent
+				}
+			}
+			if cmp, ok := decodeCond(cond, pol); ok {
+				X, Y := x.Resolve(cmp.X), x.Resolve(cmp.Y)
+				// entry == nil for the look-up made under this hold
+				if cmp.Op == token.EQL && st&c13tbW != 0 {
+					for _, pr := range [][2]ssa.Value{{X, Y}, {Y, X}} {
+						if !isNilConst(pr[1]) {
+							continue
+						}
+						v := pr[0]
+						if exr, ok := v.(*ssa.Extract); ok && exr.Index == 0 {
+							v = exr.Tuple
+						}
+						if lk, ok := v.(*ssa.Lookup); ok && x.Fact("lookup") == ssa.Value(lk) {
+							return st | c13tbAbsent
+						}
+					}
+				}
+				// count == 0 (and its equivalents) under this hold
+				if hasCount && st&(c13tbW|c13tbR) != 0 {
+					op := cmp.Op
+					var k ssa.Value
+					switch {
+					case curCount(x, X):
+						k = Y
+					case curCount(x, Y):
+						k = X
+						op = c13SwapOp(op)
+					}
+					if k != nil {
+						if op == token.EQL && c13IsConstInt(k, 0) || op == token.LSS && c13IsConstInt(k, 1) || op == token.LEQ && c13IsConstInt(k, 0) {
+							return st | c13tbZero
+						}
+						if op == token.EQL && c13IsConstInt(k, 1) {
+							return st | c13tbOne
+						}
+					}
+				}
+			}
+			return st
+		},
+		Return: func(x *C13Ctx, ret *ssa.Return, _ []ssa.Value, st uint64) {
+			res.nReturns++
+			if short == "Lock" && st&c13tbAcqW == 0 || short == "RLock" && st&(c13tbAcqW|c13tbAcqR) == 0 {
+				res.retNoAcq = append(res.retNoAcq, "return at "+p.Pos(instrPos(ret)))
+			}
+			if t.pairing && (short == "Lock" || short == "Unlock") {
+				res.pairPoints++
+				if n := c13tbCount(st); n != 1 {
+					res.pairBad = append(res.pairBad, fmt.Sprintf("at the return (%s) the caller has been counted %s %s times", p.Pos(instrPos(ret)), map[string]string{"Lock": "in", "Unlock": "out"}[short], c13CntName(n)))
+				}
+			}
+		},
+		Unfollowed: func(x *C13Ctx, call ssa.CallInstruction, st uint64) { res.unf.add(p, call) },
+		Opaque: func(fn *ssa.Function) bool {
+			return fn.Signature.Recv() != nil && ro.isLockType(fn.Signature.Recv().Type())
+		},
+	}
+	ex.Explore(fn, entry, hooks)
+	res.incomplete = ex.Incomplete
+	sort.Strings(res.acqBad)
+	sort.Strings(res.insBad)
+	sort.Strings(res.remBad)
+	sort.Strings(res.pairBad)
+	res.acqBad, res.insBad, res.remBad, res.pairBad = c13Uniq(res.acqBad), c13Uniq(res.insBad), c13Uniq(res.remBad), c13Uniq(res.pairBad)
+	res.acqSites, res.insSites, res.remSites = c13Uniq(c13Sorted(res.acqSites)), c13Uniq(c13Sorted(res.insSites)), c13Uniq(c13Sorted(res.remSites))
+	return res
+}
+
+func c13Sorted(s []string) []string { sort.Strings(s); return s }
+func c13Uniq(s []string) []string {
+	var out []string
+	for i, v := range s {
+		if i == 0 || v != s[i-1] {
+			out = append(out, v)
+		}
+	}
+	return out
+}
+
+func c13CntName(n int) string {
+	return [...]string{"0", "1", "2 or more", "an unrecognised number of"}[n&3]
+}
+
+func c13SwapOp(op token.Token) token.Token {
+	switch op {
+	case token.LSS:
+		return token.GTR
+	case token.GTR:
+		return token.LSS
+	case token.LEQ:
+		return token.GEQ
+	case token.GEQ:
+		return token.LEQ
+	}
+	return op
+}
+
+// c13Delta classifies the value stored into the count field: +1, -1, or 99.
+// `count = count ± 1` (either operand order for +), or the constant 1 stored
+// into the count of an entry allocated here (a new entry that starts at 1).
+func c13Delta(x *C13Ctx, val ssa.Value, f FieldID, freshBase bool, cur func(*C13Ctx, ssa.Value) bool) int {
+	if freshBase && c13IsConstInt(val, 1) {
+		return 1
+	}
+	bo, ok := val.(*ssa.BinOp)
+	if !ok {
+		return 99
+	}
+	X, Y := x.Resolve(bo.X), x.Resolve(bo.Y)
+	if freshBase && bo.Op == token.ADD && (c13IsConstInt(X, 0) && c13IsConstInt(Y, 1) || c13IsConstInt(X, 1) && c13IsConstInt(Y, 0)) {
+		return 1 // the count of an entry allocated on this path (still zero) is incremented
+	}
+	switch bo.Op {
+	case token.ADD:
+		if cur(x, X) && c13IsConstInt(Y, 1) || cur(x, Y) && c13IsConstInt(X, 1) {
+			return 1
+		}
+	case token.SUB:
+		if cur(x, X) && c13IsConstInt(Y, 1) {
+			return -1
+		}
+	}
+	return 99
+}
+
+// ---------------------------------------------------------------------------
+// CAP: capacity-1 channel mutexes
+
+// c13MakeChanSize resolves v statically to the MakeChan that creates it.
+func c13MakeChan(p *Prog, v ssa.Value, depth int) (*ssa.MakeChan, bool) {
+	if depth > 4 {
+		return nil, false
+	}
+	switch t := c13StripConv(v).(type) {
+	case *ssa.MakeChan:
+		return t, true
+	case *ssa.Phi:
+		var first *ssa.MakeChan
+		for _, ed := range t.Edges {
+			mc, ok := c13MakeChan(p, ed, depth+1)
+			if !ok {
+				return nil, false
+			}
+			if first == nil {
+				first = mc
+			} else if !c13SameConstSize(first, mc) {
+				return nil, false
+			}
+		}
+		return first, first != nil
+	case *ssa.Call:
+		cal := staticCallee(t)
+		if cal == nil || !p.InModule(cal) || cal.Signature.Results().Len() != 1 {
+			return nil, false
+		}
+		var first *ssa.MakeChan
+		okAll := true
+		allInstrs(cal, func(in ssa.Instruction) {
+			if ret, ok := in.(*ssa.Return); ok && len(ret.Results) == 1 {
+				for _, rv := range unspill(ret.Results[0]) {
+					mc, ok := c13MakeChan(p, rv, depth+1)
+					if !ok || first != nil && !c13SameConstSize(first, mc) {
+						okAll = false
+						return
+					}
+					first = mc
+				}
+			}
+		})
+		return first, okAll && first != nil
+	case *ssa.UnOp:
+		if t.Op == token.MUL {
+			if cell, ok := t.X.(*ssa.Alloc); ok {
+				if only := c13CellSingleStore(cell); only != nil {
+					return c13MakeChan(p, only, depth+1)
+				}
+			}
+		}
+	}
+	return nil, false
+}
+
+func c13SameConstSize(a, b *ssa.MakeChan) bool {
+	ka, ok1 := a.Size.(*ssa.Const)
+	kb, ok2 := b.Size.(*ssa.Const)
+	return ok1 && ok2 && ka.Value != nil && kb.Value != nil && ka.Int64() == kb.Int64()
+}
+
+func c13ChanMutex(c *Ctx, ro *c13Roles) {
+	r, p := c.R, c.P
+	type cm struct {
+		f     FieldID
+		canon string
+	}
+	chans := []cm{{ro.fifoSlot, "fifo.Mutex.lock"}, {ro.ctxTok, "lock.Context.locked"}, {ro.ocSlot, "lock.OuterCancel.lock"}}
+	for _, ch := range chans {
+		n := 0
+		for _, fn := range p.Funcs {
+			allInstrs(fn, func(in ssa.Instruction) {
+				st, ok := in.(*ssa.Store)
+				if !ok {
+					return
+				}
+				fa, ok := st.Addr.(*ssa.FieldAddr)
+				if !ok || c13CanonChan(fieldIDOfAddr(fa)) != ch.f {
+					return
+				}
+				if src, _, ok := fieldOfValue(c13StripConv(st.Val)); ok && c13CanonChan(src) == ch.f {
+					return // a copy of the slot kept in another field, not a creation
+				}
+				n++
+				construct := FuncName(p, fn) + " makes " + ch.canon
+				mc, found := c13MakeChan(p, st.Val, 0)
+				if !found {
+					r.Undecide("%s: the channel stored into the mutex slot %s at %s could not be traced to its make()", FuncName(p, fn), ch.f, p.Pos(instrPos(in)))
+					return
+				}
+				k, isK := c13ConstSize(p, mc.Size, 0)
+				if !isK || k.Value == nil {
+					r.Undecide("%s: the capacity of the mutex slot %s at %s is not a constant", FuncName(p, fn), ch.f, p.Pos(instrPos(in)))
+					return
+				}
+				r.Check(k.Int64() == 1, "C13.CAP-chan-mutex", construct, p.Pos(instrPos(in)),
+					"channel used as mutex slot has capacity 1", fmt.Sprintf("the channel used as the mutex slot is created with capacity %d, not exactly 1 (capacity k admits k holders; 0 deadlocks)", k.Int64()))
+			})
+		}
+		if n == 0 {
+			r.Undecide("no initialisation of %s found", ch.f)
+		}
+	}
+	// fifo.Mutex.Lock: a blocking send on every path; Unlock: a blocking receive
+	slot := c13ChanID(ro.fifoSlot)
+	for _, spec := range []struct{ name, kind string }{{"Lock", "send"}, {"Unlock", "receive"}} {
+		fn := ro.mustMethod(ro.fifoMutex, spec.name)
+		var bad []string
+		var unf c13Unf
+		n := 0
+		ex := NewC13Explorer(p)
+		ex.Explore(fn, 0, &C13Hooks{
+			Instr: func(x *C13Ctx, in ssa.Instruction, st uint64) uint64 {
+				switch v := in.(type) {
+				case *ssa.Send:
+					if spec.kind == "send" && c13ChanKey(x, v.Chan) == slot {
+						return st | 1
+					}
+				case *ssa.UnOp:
+					if spec.kind == "receive" && v.Op == token.ARROW && c13ChanKey(x, v.X) == slot {
+						return st | 1
+					}
+				}
+				return st
+			},
+			Branch: func(x *C13Ctx, ifi *ssa.If, taken bool, st uint64) uint64 {
+				if sel, k, ok := C13SelectFired(ifi, taken); ok && sel.Blocking {
+					s := sel.States[k]
+					if c13ChanKey(x, s.Chan) == slot && (spec.kind == "send") == (s.Dir == types.SendOnly) {
+						return st | 1
+					}
+				}
+				return st
+			},
+			Return: func(x *C13Ctx, ret *ssa.Return, _ []ssa.Value, st uint64) {
+				n++
+				if st&1 == 0 {
+					bad = append(bad, "return at "+p.Pos(instrPos(ret)))
+				}
+			},
+			Unfollowed: func(x *C13Ctx, call ssa.CallInstruction, st uint64) { unf.add(p, call) },
+		})
+		construct := "concurrency/fifo.Mutex." + spec.name
+		if (len(bad) > 0 || n == 0) && (len(unf.list) > 0 || len(ex.Incomplete) > 0) {
+			r.Undecide("%s: the blocking %s on the slot was not found on every path and calls could not be followed (%s)", construct, spec.kind, strings.Join(append(unf.list, ex.Incomplete...), "; "))
+			continue
+		}
+		r.Check(len(bad) == 0 && n > 0, "C13.CAP-chan-mutex", construct, p.Pos(fn.Pos()),
+			"every return is preceded by a blocking "+spec.kind+" on the slot", "a path returns without the blocking "+spec.kind+" on the mutex slot (lock not acquired / not released, or made non-blocking)", c13Uniq(c13Sorted(bad))...)
+	}
+}
+
+// ---------------------------------------------------------------------------
+// CTX: lock.Context
+
+func c13ContextLock(c *Ctx, ro *c13Roles) {
+	r, p := c.R, c.P
+	tok := c13ChanID(ro.ctxTok)
+	const (
+		fTok = 1 << iota
+		fW
+		fR
+	)
+	mkHooks := func(onReturn func(x *C13Ctx, ret *ssa.Return, res []ssa.Value, st uint64), unf *c13Unf) *C13Hooks {
+		return &C13Hooks{
+			Instr: func(x *C13Ctx, in ssa.Instruction, st uint64) uint64 {
+				switch v := in.(type) {
+				case *ssa.Send:
+					if c13ChanKey(x, v.Chan) == tok {
+						return st | fTok
+					}
+				case *ssa.UnOp:
+					if v.Op == token.ARROW && c13ChanKey(x, v.X) == tok {
+						return st &^ fTok
+					}
+				case ssa.CallInstruction:
+					if _, isGo := in.(*ssa.Go); isGo {
+						return st
+					}
+					if kind, recv, ok := c13LockCallX(ro, x, v); ok && c13LockIs(x, recv, ro.ctxRW) {
+						switch kind {
+						case opLock:
+							return st | fW
+						case opRLock:
+							return st | fR
+						case opUnlock:
+							return st &^ fW
+						case opRUnlock:
+							return st &^ fR
+						}
+					}
+				}
+				return st
+			},
+			Branch: func(x *C13Ctx, ifi *ssa.If, taken bool, st uint64) uint64 {
+				if sel, k, ok := C13SelectFired(ifi, taken); ok {
+					s := sel.States[k]
+					if c13ChanKey(x, s.Chan) == tok {
+						if s.Dir == types.SendOnly {
+							return st | fTok
+						}
+						return st &^ fTok
+					}
+				}
+				return st
+			},
+			Return:     onReturn,
+			Unfollowed: func(x *C13Ctx, call ssa.CallInstruction, st uint64) { unf.add(p, call) },
+			Opaque: func(fn *ssa.Function) bool {
+				return fn.Signature.Recv() != nil && ro.isLockType(fn.Signature.Recv().Type())
+			},
+		}
+	}
+	for _, name := range []string{"Lock", "RLock"} {
+		fn := ro.mustMethod(ro.ctxT, name)
+		var bad []string
+		var unf c13Unf
+		nNil, nErr := 0, 0
+		ex := NewC13Explorer(p)
+		ex.Explore(fn, 0, mkHooks(func(x *C13Ctx, ret *ssa.Return, res []ssa.Value, st uint64) {
+			if len(res) != 1 {
+				return
+			}
+			isNil := isNilConst(c13StripConv(res[0]))
+			if kn, ok := x.KnownNil(res[0]); ok {
+				isNil = kn
+			}
+			if isNil {
+				nNil++
+				okRW := st&fW != 0
+				if name == "RLock" {
+					okRW = st&(fW|fR) != 0
+				}
+				if st&fTok == 0 || !okRW {
+					bad = append(bad, "a path returns nil (acquired) at "+p.Pos(instrPos(ret))+" without holding both the token and the RWMutex")
+				}
+			} else {
+				nErr++
+				if st&(fTok|fW|fR) != 0 {
+					bad = append(bad, "a path returns a possibly non-nil error at "+p.Pos(instrPos(ret))+" while it holds the token or the RWMutex (an acquisition that reports an error must hold nothing)")
+				}
+			}
+		}, &unf))
+		construct := "concurrency/lock.Context." + name
+		incompl := len(unf.list) > 0 || len(ex.Incomplete) > 0
+		switch {
+		case len(bad) > 0 && incompl:
+			r.Undecide("%s: %s — but calls could not be followed: %s", construct, bad[0], strings.Join(append(unf.list, ex.Incomplete...), "; "))
+		case len(bad) > 0:
+			r.Violation("C13.CTX-context-lock", construct, p.Pos(fn.Pos()), bad[0], c13Uniq(c13Sorted(bad))...)
+		case nNil == 0 || nErr == 0:
+			if incompl {
+				r.Undecide("%s: acquired/cancelled return paths not found (unfollowed: %s)", construct, strings.Join(append(unf.list, ex.Incomplete...), "; "))
+			} else if nErr == 0 {
+				r.Violation("C13.CTX-context-lock", construct, p.Pos(fn.Pos()), "no path gives up with an error: a waiter whose context ends keeps waiting")
+			} else {
+				r.Violation("C13.CTX-context-lock", construct, p.Pos(fn.Pos()), "no path returns nil: the lock can never be acquired")
+			}
+		default:
+			r.OK("C13.CTX-context-lock", construct, p.Pos(fn.Pos()), "nil return holds token+RWMutex, error return holds nothing")
+		}
+	}
+	for _, name := range []string{"Unlock", "RUnlock"} {
+		fn := ro.mustMethod(ro.ctxT, name)
+		entry := uint64(fTok | fW)
+		if name == "RUnlock" {
+			entry = fTok | fR
+		}
+		var bad []string
+		var unf c13Unf
+		n := 0
+		ex := NewC13Explorer(p)
+		ex.Explore(fn, entry, mkHooks(func(x *C13Ctx, ret *ssa.Return, res []ssa.Value, st uint64) {
+			n++
+			if st&(fTok|fW|fR) != 0 {
+				bad = append(bad, "return at "+p.Pos(instrPos(ret)))
+			}
+		}, &unf))
+		construct := "concurrency/lock.Context." + name
+		if (len(bad) > 0 || n == 0) && (len(unf.list) > 0 || len(ex.Incomplete) > 0) {
+			r.Undecide("%s: the releases were not found on every path and calls could not be followed (%s)", construct, strings.Join(append(unf.list, ex.Incomplete...), "; "))
+			continue
+		}
+		r.Check(len(bad) == 0 && n > 0, "C13.CTX-context-lock", construct, p.Pos(fn.Pos()), "releases the RWMutex (matching mode) and the token on every path", "a path returns without releasing both the RWMutex (in the matching mode) and the token", c13Uniq(c13Sorted(bad))...)
+	}
+}
+
+// ---------------------------------------------------------------------------
+// helpers kept for other properties (C09, C10/C11, C14, C19 use them)
+
+// refDelta classifies a store to field f: +1, -1, 0 (not a store to f) or 99 (other).
 func refDelta(st *ssa.Store, f FieldID) int {
 	fa, ok := st.Addr.(*ssa.FieldAddr)
 	if !ok || fieldIDOfAddr(fa) != f {
@@ -148,68 +1080,6 @@ func refDelta(st *ssa.Store, f FieldID) int {
 	return 99
 }
 
-func c13Pairing(c *Ctx, fifo string) {
-	r, p, e := c.R, c.P, c.Locks()
-	ilen := FieldID{fifo + ".mapItem", "ilen"}
-	for _, spec := range []struct {
-		name  string
-		delta int
-	}{{"fifoMap.Lock", 1}, {"fifoMap.Unlock", -1}} {
-		fn := p.Func("concurrency/fifo", spec.name)
-		// abstract state: number of matching stores so far: 0,1,2(+); 3 = a store of another shape
-		ff := &FlagFlow{Fn: fn, Must: false, Entry: 1 << 0, Transfer: func(in ssa.Instruction, st uint64) uint64 {
-			s, ok := in.(*ssa.Store)
-			if !ok {
-				return st
-			}
-			d := refDelta(s, ilen)
-			if d == 0 {
-				return st
-			}
-			return mapStates(st, func(n int) int {
-				if d != spec.delta || n == 3 {
-					return 3
-				}
-				if n >= 2 {
-					return 2
-				}
-				return n + 1
-			})
-		}}
-		ff.Run()
-		construct := "concurrency/fifo." + spec.name + " ilen"
-		ok := true
-		why := ""
-		n := 0
-		check := func(in ssa.Instruction, what string) {
-			st, reach := ff.Before(in)
-			if !reach {
-				return
-			}
-			n++
-			if st != 1<<1 {
-				ok = false
-				why = fmt.Sprintf("at %s (%s) the caller has been counted %s times (must be exactly once on every path)", p.Pos(instrPos(in)), what, stateSetString(st))
-			}
-		}
-		if spec.delta == 1 {
-			// at the blocking per-key lock
-			allInstrs(fn, func(in ssa.Instruction) {
-				if call, ok := in.(*ssa.Call); ok {
-					if id, kind, ok := e.lockOp(call); ok && kind == opLock && id == fifo+".mapItem.mutex" {
-						check(in, "blocking per-key Lock")
-					}
-				}
-			})
-		}
-		ff.AtReturns(func(ret *ssa.Return, st uint64) { check(ret, "return") })
-		if n == 0 {
-			ok, why = false, "no per-key lock acquisition / return found"
-		}
-		r.Check(ok, "C13.P-count-pairing", construct, p.Pos(fn.Pos()), "holder/waiter count adjusted exactly once on every path", why)
-	}
-}
-
 func stateSetString(st uint64) string {
 	var parts []string
 	names := []string{"0", "1", "2+", "other-store"}
@@ -221,456 +1091,120 @@ func stateSetString(st uint64) string {
 	return "{" + strings.Join(parts, ",") + "}"
 }
 
-// c13ChanMutex: capacity-1 channel mutexes.
-func c13ChanMutex(c *Ctx, fifo, lk string) {
-	r, p := c.R, c.P
-	chans := []FieldID{{fifo + ".Mutex", "lock"}, {lk + ".Context", "locked"}, {lk + ".OuterCancel", "lock"}}
-	for _, f := range chans {
-		n := 0
-		for _, fn := range p.Funcs {
-			allInstrs(fn, func(in ssa.Instruction) {
-				st, ok := in.(*ssa.Store)
-				if !ok {
-					return
-				}
-				fa, ok := st.Addr.(*ssa.FieldAddr)
-				if !ok || fieldIDOfAddr(fa) != f {
-					return
-				}
-				n++
-				mc, isMake := st.Val.(*ssa.MakeChan)
-				capOK := false
-				if isMake {
-					if k, ok := mc.Size.(*ssa.Const); ok && k.Value != nil && k.Int64() == 1 {
-						capOK = true
-					}
-				}
-				r.Check(capOK, "C13.CAP-chan-mutex", FuncName(p, fn)+" makes "+f.String(), p.Pos(instrPos(in)),
-					"channel used as mutex slot has capacity 1", "the channel used as the mutex slot is not created with capacity exactly 1 (capacity k admits k holders; 0 deadlocks)")
-			})
-		}
-		if n == 0 {
-			r.Undecide("no initialisation of %s found", f)
-		}
-	}
-	// fifo.Mutex.Lock: unconditional send; Unlock: unconditional receive
-	mf := FieldID{fifo + ".Mutex", "lock"}
-	chID := "field:" + mf.Type + "." + mf.Field
-	for _, spec := range []struct{ name, kind string }{{"Mutex.Lock", "send"}, {"Mutex.Unlock", "recv"}} {
-		fn := p.Func("concurrency/fifo", spec.name)
-		ff := &FlagFlow{Fn: fn, Must: true, Transfer: func(in ssa.Instruction, st uint64) uint64 {
-			switch x := in.(type) {
-			case *ssa.Send:
-				if spec.kind == "send" && chanIdent(x.Chan) == chID {
-					return st | 1
-				}
-			case *ssa.UnOp:
-				if spec.kind == "recv" && x.Op == token.ARROW && chanIdent(x.X) == chID {
-					return st | 1
-				}
-			}
-			return st
-		}}
-		ff.Run()
-		ok, n := true, 0
-		ff.AtReturns(func(ret *ssa.Return, st uint64) {
-			n++
-			if st&1 == 0 {
-				ok = false
-			}
-		})
-		r.Check(ok && n > 0, "C13.CAP-chan-mutex", "concurrency/fifo."+spec.name, p.Pos(fn.Pos()),
-			"every return is preceded by a blocking "+spec.kind+" on the slot", "a path returns without the blocking "+spec.kind+" on Mutex.lock (lock not acquired / not released, or made non-blocking)")
-	}
-}
-
-// c13ContextLock: lock.Context.
-func c13ContextLock(c *Ctx, lk string) {
-	r, p, e := c.R, c.P, c.Locks()
-	tok := "field:" + lk + ".Context.locked"
-	rw := lk + ".Context.lock"
-	const (
-		fTok = 1 << iota
-		fRW
-	)
-	for _, name := range []string{"Context.Lock", "Context.RLock"} {
-		fn := p.Func("concurrency/lock", name)
-		run := func(must bool) *FlagFlow {
-			ff := &FlagFlow{Fn: fn, Must: must,
-				Transfer: func(in ssa.Instruction, st uint64) uint64 {
-					switch x := in.(type) {
-					case *ssa.Send:
-						if chanIdent(x.Chan) == tok {
-							return st | fTok
-						}
-					case *ssa.Call:
-						if id, kind, ok := e.lockOp(x); ok && id == rw && (kind == opLock || kind == opRLock) {
-							return st | fRW
-						}
-					}
-					return st
-				},
-				EdgeTransfer: func(from, to *ssa.BasicBlock, st uint64) uint64 {
-					if si, ks := selectEdgeCases(from, to); si != nil {
-						for _, k := range ks {
-							if k < len(si.Cases) && si.Cases[k].Dir == types.SendOnly && si.Cases[k].Chan == tok {
-								return st | fTok
-							}
-						}
-					}
-					return st
-				}}
-			ff.Run()
-			return ff
-		}
-		must, may := run(true), run(false)
-		ok, why, n := true, "", 0
-		must.AtReturns(func(ret *ssa.Return, st uint64) {
-			n++
-			mayst, _ := may.Before(ret)
-			if len(ret.Results) != 1 {
-				return
-			}
-			if isNilConst(ret.Results[0]) {
-				if st&(fTok|fRW) != fTok|fRW {
-					ok, why = false, "a path returns nil (acquired) at "+p.Pos(ret.Pos())+" without holding both the token and the RWMutex"
-				}
-			} else if mayst&(fTok|fRW) != 0 {
-				ok, why = false, "a path returns an error at "+p.Pos(ret.Pos())+" while it may hold the token or the RWMutex (an acquisition that reports an error must hold nothing)"
-			}
-		})
-		r.Check(ok && n >= 2, "C13.CTX-context-lock", "concurrency/lock."+name, p.Pos(fn.Pos()), "nil return holds token+RWMutex, error return holds nothing", why)
-	}
-	for _, name := range []string{"Context.Unlock", "Context.RUnlock"} {
-		fn := p.Func("concurrency/lock", name)
-		ff := &FlagFlow{Fn: fn, Must: true, Transfer: func(in ssa.Instruction, st uint64) uint64 {
-			switch x := in.(type) {
-			case *ssa.UnOp:
-				if x.Op == token.ARROW && chanIdent(x.X) == tok {
-					return st | fTok
-				}
-			case *ssa.Call:
-				if id, kind, ok := e.lockOp(x); ok && id == rw {
-					want := opUnlock
-					if name == "Context.RUnlock" {
-						want = opRUnlock
-					}
-					if kind == want {
-						return st | fRW
-					}
-				}
-			}
-			return st
-		}}
-		ff.Run()
-		ok := true
-		ff.AtReturns(func(ret *ssa.Return, st uint64) {
-			if st&(fTok|fRW) != fTok|fRW {
-				ok = false
-			}
-		})
-		r.Check(ok, "C13.CTX-context-lock", "concurrency/lock."+name, p.Pos(fn.Pos()), "releases the RWMutex (matching mode) and the token on every path", "a path returns without releasing both the RWMutex (in the matching mode) and the token")
-	}
-}
-
-// c13OuterCancel: OuterCancel.handleHold and its closures.
-func c13OuterCancel(c *Ctx, lk string) {
-	r, p := c.R, c.P
-	hh := p.Func("concurrency/lock", "OuterCancel.handleHold")
-	slot := "field:" + lk + ".OuterCancel.lock"
-	closeCh := "field:" + lk + ".OuterCancel.closeCh"
-
-	// closures of handleHold that receive from the slot (release closures)
-	releases := map[*ssa.Function]bool{}
-	for _, an := range hh.AnonFuncs {
-		allInstrs(an, func(in ssa.Instruction) {
-			if u, ok := in.(*ssa.UnOp); ok && u.Op == token.ARROW && chanIdent(u.X) == slot {
-				releases[an] = true
-			}
-		})
-	}
-	// abstract state bits: held(1) handed(2) waited(4) fanout(8) added(16)
-	const (
-		held = 1 << iota
-		handed
-		waited
-		fanout
-	)
-	enc := func(h, d, w, f bool) int {
-		s := 0
-		if h {
-			s |= held
-		}
-		if d {
-			s |= handed
-		}
-		if w {
-			s |= waited
-		}
-		if f {
-			s |= fanout
-		}
-		return s
-	}
-	_ = enc
-	var sendViol []string
-	ff := &FlagFlow{Fn: hh, Must: false, Entry: 1 << 0,
-		Transfer: func(in ssa.Instruction, st uint64) uint64 {
-			switch x := in.(type) {
-			case *ssa.Send:
-				if chanIdent(x.Chan) == slot {
-					return mapStates(st, func(s int) int { return s | held })
-				}
-			case *ssa.UnOp:
-				if x.Op == token.ARROW && chanIdent(x.X) == slot {
-					return mapStates(st, func(s int) int { return s &^ held })
-				}
-			case *ssa.MakeClosure:
-				if f, ok := x.Fn.(*ssa.Function); ok && releases[f] {
-					// only counts if it ends up in a holdresp.cancel field
-					for _, rr := range refs(x) {
-						if ct, ok := rr.(*ssa.ChangeType); ok {
-							for _, r2 := range refs(ct) {
-								if st2, ok := r2.(*ssa.Store); ok {
-									if fa, ok := st2.Addr.(*ssa.FieldAddr); ok && fieldIDOfAddr(fa).Field == "cancel" {
-										return mapStates(st, func(s int) int { return s | handed })
-									}
-								}
-							}
-						}
-					}
-				}
-			case *ssa.Call:
-				if callIs(x, "sync", "WaitGroup", "Wait") {
-					return mapStates(st, func(s int) int { return s | waited })
-				}
-			case *ssa.Range:
-				// for _, cancel := range o.rcancels { go cancel() }: the fan-out is
-				// the loop itself (it may run zero times when there is no reader)
-				if id, _, ok := fieldOfValue(x.X); ok && id.Field == "rcancels" && rangeSpawnsValues(x) {
-					return mapStates(st, func(s int) int { return s | fanout })
-				}
-			}
-			return st
-		},
-		EdgeTransfer: func(from, to *ssa.BasicBlock, st uint64) uint64 {
-			if si, ks := selectEdgeCases(from, to); si != nil {
-				for _, k := range ks {
-					if k < len(si.Cases) && si.Cases[k].Dir == types.SendOnly && si.Cases[k].Chan == slot {
-						return mapStates(st, func(s int) int { return s | held })
-					}
-				}
-			}
-			return st
-		}}
-	ff.Run()
-	_ = sendViol
-	// (1) at every return: !held || handed
-	ok1, why1, nret := true, "", 0
-	ff.AtReturns(func(ret *ssa.Return, st uint64) {
-		nret++
-		for s := 0; s < 16; s++ {
-			if st&(1<<uint(s)) != 0 && s&held != 0 && s&handed == 0 {
-				ok1 = false
-				why1 = "handleHold can return at " + p.Pos(ret.Pos()) + " still occupying the hold slot without handing its release to the caller: every later Lock/RLock blocks forever"
-			}
-		}
-	})
-	r.Check(ok1 && nret >= 3, "C13.OC-outercancel", "concurrency/lock.OuterCancel.handleHold slot-per-path", p.Pos(hh.Pos()), "each return released the slot or handed out its release", why1)
-
-	// (2) grants: sends on hold.respCh of a holdresp with cancel set
-	nGrantW, nGrantR := 0, 0
-	allInstrs(hh, func(in ssa.Instruction) {
-		snd, ok := in.(*ssa.Send)
-		if !ok || !strings.HasSuffix(chanIdent(snd.Chan), ".hold.respCh") {
-			return
-		}
-		al, ok := snd.X.(*ssa.Alloc)
-		if !ok {
-			return
-		}
-		fields := map[string]bool{}
-		for _, rr := range refs(al) {
-			if fa, ok := rr.(*ssa.FieldAddr); ok {
-				for _, r2 := range refs(fa) {
-					if _, ok := r2.(*ssa.Store); ok {
-						fields[fieldIDOfAddr(fa).Field] = true
-					}
-				}
-			}
-		}
-		st, _ := ff.Before(snd)
-		switch {
-		case fields["err"]:
-			// refusal: must not hold the slot
-			bad := false
-			for s := 0; s < 16; s++ {
-				if st&(1<<uint(s)) != 0 && s&held != 0 {
-					bad = true
-				}
-			}
-			r.Check(!bad, "C13.OC-outercancel", "concurrency/lock.OuterCancel.handleHold refusal", p.Pos(snd.Pos()), "an acquisition that reports an error holds nothing", "the error response is sent while the slot may be held")
-		case fields["cancel"] && !fields["rctx"]:
-			nGrantW++
-			bad := ""
-			for s := 0; s < 16; s++ {
-				if st&(1<<uint(s)) == 0 {
-					continue
-				}
-				if s&held == 0 {
-					bad = "without holding the slot"
-				} else if s&waited == 0 {
-					bad = "without waiting for the readers (wg.Wait)"
-				} else if s&fanout == 0 {
-					bad = "without cancelling the current readers first"
-				}
-			}
-			r.Check(bad == "", "C13.OC-outercancel", "concurrency/lock.OuterCancel.handleHold writer grant", p.Pos(snd.Pos()), "writer is granted with the slot held, after the cancel fan-out and wg.Wait()", "the writer can be granted "+bad)
-		case fields["cancel"] && fields["rctx"]:
-			nGrantR++
-			bad := false
-			for s := 0; s < 16; s++ {
-				if st&(1<<uint(s)) != 0 && s&held == 0 {
-					bad = true
-				}
-			}
-			r.Check(!bad, "C13.OC-outercancel", "concurrency/lock.OuterCancel.handleHold reader grant", p.Pos(snd.Pos()), "reader is admitted only while handleHold occupies the slot (so never while a writer holds it)", "a reader can be admitted without passing through the slot a writer keeps occupied")
-		}
-	})
-	if nGrantW == 0 || nGrantR == 0 {
-		r.Violation("C13.OC-outercancel", "concurrency/lock.OuterCancel.handleHold grants", p.Pos(hh.Pos()), "writer/reader grant sends on hold.respCh no longer found")
-	}
-
-	// (3) closures: rcancel (wg.Done under !done, sets done, cancels with cancelErr) and rcancelGrace (three-way wait dominates rcancel call)
-	var rcancel, grace *ssa.Function
-	for _, an := range hh.AnonFuncs {
-		hasDone, hasSel := false, false
-		allInstrs(an, func(in ssa.Instruction) {
-			if call, ok := in.(*ssa.Call); ok && callIs(call, "sync", "WaitGroup", "Done") {
-				hasDone = true
-			}
-			if sel, ok := in.(*ssa.Select); ok && sel.Blocking {
-				hasSel = true
-			}
-		})
-		if hasDone {
-			rcancel = an
-		} else if hasSel {
-			grace = an
-		}
-	}
-	if rcancel == nil || grace == nil {
-		r.Violation("C13.OC-outercancel", "concurrency/lock.OuterCancel.handleHold closures", p.Pos(hh.Pos()), "reader release closure (wg.Done) or grace closure (three-way select) not found")
-		return
-	}
-	// rcancel: wg.Done dominated by !done edge; store done=true after; cancel(cause) with cancelErr; delete from rcancels; all under rcancelLock
-	e := c.Locks()
-	okDone, okSet, okCause, okDel := false, false, false, false
-	allInstrs(rcancel, func(in ssa.Instruction) {
-		switch x := in.(type) {
-		case *ssa.Call:
-			if callIs(x, "sync", "WaitGroup", "Done") {
-				for _, dc := range domConds(x.Block()) {
-					// cond: !done  (UnOp NOT of load of freevar done) true branch, or done false branch
-					v, br := dc.If.Cond, dc.Branch
-					if u, ok := v.(*ssa.UnOp); ok && u.Op == token.NOT {
-						v, br = u.X, !br
-					}
-					if ld, ok := v.(*ssa.UnOp); ok && ld.Op == token.MUL && !br {
-						if fv, ok := ld.X.(*ssa.FreeVar); ok && fv.Name() == "done" {
-							okDone = e.At(x)[lk+".OuterCancel.rcancelLock"] == ModeW
-						}
-					}
-				}
-			}
-			if builtinName(x) == "delete" {
-				if id, _, ok := fieldOfValue(x.Call.Args[0]); ok && id.Field == "rcancels" {
-					okDel = true
-				}
-			}
-			// cancel(o.cancelErr): dynamic call of a CancelCauseFunc with arg loaded from cancelErr
-			if !x.Call.IsInvoke() && len(x.Call.Args) == 1 {
-				if id, _, ok := fieldOfValue(x.Call.Args[0]); ok && id.Field == "cancelErr" {
-					okCause = true
-				}
-			}
-		case *ssa.Store:
-			if fv, ok := x.Addr.(*ssa.FreeVar); ok && fv.Name() == "done" {
-				if k, ok := x.Val.(*ssa.Const); ok && k.Value != nil && k.Value.String() == "true" {
-					okSet = true
-				}
-			}
-		}
-	})
-	r.Check(okDone && okSet && okDel, "C13.OC-outercancel", "concurrency/lock.OuterCancel.handleHold rcancel once", p.Pos(rcancel.Pos()),
-		"wg.Done/delete happen only under !done, with rcancelLock held, and done is set", "the reader release is not idempotent: wg.Done can run twice (negative WaitGroup counter / writer admitted early) or the reader's cancel entry is not removed")
-	r.Check(okCause, "C13.OC-outercancel", "concurrency/lock.OuterCancel.handleHold rcancel cause", p.Pos(rcancel.Pos()),
-		"reader context cancelled with OuterCancel.cancelErr", "the reader's context is not cancelled with the configured cause")
-	// grace: call of rcancel dominated by the blocking select with 3 cases
-	okGrace := false
-	why := "rcancelGrace does not wait on {time.After(gracefulTimeout), closeCh, doneCh} before cancelling the reader"
-	allInstrs(grace, func(in ssa.Instruction) {
-		sel, ok := in.(*ssa.Select)
-		if !ok || !sel.Blocking {
-			return
-		}
-		si := decodeSelect(sel)
-		hasClose, hasDoneCh, hasAfter := false, false, false
-		for _, cs := range si.Cases {
-			if cs.Dir != types.RecvOnly {
-				continue
-			}
-			if cs.Chan == closeCh {
-				hasClose = true
-			}
-			if strings.Contains(cs.Chan, "doneCh") {
-				hasDoneCh = true
-			}
-			if call, ok := cs.ChanV.(*ssa.Call); ok && callIs(call, "time", "", "After") {
-				if id, _, ok := fieldOfValue(call.Call.Args[0]); ok && id.Field == "gracefulTimeout" {
-					hasAfter = true
-				}
-			}
-		}
-		if !(hasClose && hasDoneCh && hasAfter) {
-			return
-		}
-		// every dynamic call (rcancel()) in grace must be dominated by the select
-		all := true
-		allInstrs(grace, func(j ssa.Instruction) {
-			if call, ok := j.(*ssa.Call); ok && call != nil && !call.Call.IsInvoke() && staticCallee(call) == nil && builtinName(call) == "" {
-				if _, isAfter := call.Call.Value.(*ssa.Function); !isAfter && !instrDominates(sel, j) {
-					all = false
-				}
-			}
-		})
-		okGrace = all
-	})
-	r.Check(okGrace, "C13.OC-outercancel", "concurrency/lock.OuterCancel.handleHold rcancelGrace wait", p.Pos(grace.Pos()), "reader cancelled by a writer only after gracefulTimeout, shutdown or its own release", why)
-}
-
-// rangeSpawnsValues: the loop over rg starts `go v()` for the ranged values.
-func rangeSpawnsValues(rg *ssa.Range) bool {
-	found := false
-	for _, r := range refs(rg) {
-		nx, ok := r.(*ssa.Next)
-		if !ok {
+// c13Fixture runs the table rules on fixtures/c13x: every Good*/Bad* method of
+// the fixture table type is examined as a Lock or Unlock operation.
+func c13Fixture(fp *Prog, fr *Report) {
+	typ := fp.Named("", "tbl")
+	ro := &c13Roles{p: fp}
+	t := &c13Table{ro: ro, typ: typ, canon: "tbl", canonItems: "tbl.items",
+		lock: c13Fid(typ, "mu"), items: c13Fid(typ, "items"), count: c13Fid(fp.Named("", "ent"), "n"), pairing: true}
+	for i := 0; i < typ.NumMethods(); i++ {
+		m := typ.Method(i)
+		lower := strings.ToLower(m.Name())
+		if !strings.HasPrefix(lower, "good") && !strings.HasPrefix(lower, "bad") {
 			continue
 		}
-		for _, r2 := range refs(nx) {
-			ex, ok := r2.(*ssa.Extract)
-			if !ok || ex.Index != 2 {
-				continue
-			}
-			for _, r3 := range refs(ex) {
-				if g, ok := r3.(*ssa.Go); ok && g.Call.Value == ex {
-					found = true
-				}
-				if cl, ok := r3.(*ssa.Call); ok && cl.Call.Value == ex {
-					found = true
-				}
-			}
+		kind := "Lock"
+		if strings.Contains(m.Name(), "Unlock") {
+			kind = "Unlock"
+		}
+		fn := origin(fp.SSA.FuncValue(m))
+		res := c13ExploreTableRoot(fp, t, fn, FuncName(fp, fn), kind, 0, map[ssa.Instruction]bool{})
+		var bad []string
+		bad = append(bad, res.acqBad...)
+		bad = append(bad, res.insBad...)
+		bad = append(bad, res.remBad...)
+		bad = append(bad, res.pairBad...)
+		if kind == "Lock" {
+			bad = append(bad, res.retNoAcq...)
+		}
+		if len(res.unf.list) > 0 || len(res.incomplete) > 0 {
+			bad = append(bad, "exploration incomplete: "+strings.Join(append(res.unf.list, res.incomplete...), "; "))
+		}
+		fr.Check(len(bad) == 0, "table", FuncName(fp, fn), fp.Pos(fn.Pos()), "clean", "table rule broken", bad...)
+	}
+}
+
+// c13StripIface resolves an interface value to the concrete value it was made from.
+func c13StripIface(x *C13Ctx, v ssa.Value) (ssa.Value, bool) {
+	for i := 0; i < 4; i++ {
+		v = x.Resolve(v)
+		switch t := v.(type) {
+		case *ssa.MakeInterface:
+			return x.Resolve(t.X), true
+		case *ssa.ChangeInterface:
+			v = t.X
+		case *ssa.ChangeType:
+			v = t.X
+		default:
+			return nil, false
 		}
 	}
-	return found
+	return nil, false
+}
+
+// c13ConstSize: the capacity as a constant, also when the make sits in a
+// helper that receives the capacity as a parameter and every call site passes
+// the same constant.
+func c13ConstSize(p *Prog, v ssa.Value, depth int) (*ssa.Const, bool) {
+	if depth > 3 {
+		return nil, false
+	}
+	switch t := v.(type) {
+	case *ssa.Const:
+		return t, true
+	case *ssa.Convert:
+		return c13ConstSize(p, t.X, depth+1)
+	case *ssa.ChangeType:
+		return c13ConstSize(p, t.X, depth+1)
+	case *ssa.BinOp:
+		a, ok1 := c13ConstSize(p, t.X, depth+1)
+		b, ok2 := c13ConstSize(p, t.Y, depth+1)
+		if !ok1 || !ok2 || a.Value == nil || b.Value == nil {
+			return nil, false
+		}
+		switch t.Op {
+		case token.ADD, token.SUB, token.MUL, token.SHL, token.SHR:
+			var v constant.Value
+			if t.Op == token.SHL || t.Op == token.SHR {
+				n, exact := constant.Uint64Val(b.Value)
+				if !exact || n > 62 {
+					return nil, false
+				}
+				v = constant.Shift(a.Value, t.Op, uint(n))
+			} else {
+				v = constant.BinaryOp(a.Value, t.Op, b.Value)
+			}
+			return ssa.NewConst(v, t.Type()), true
+		}
+		return nil, false
+	case *ssa.Parameter:
+		fn := t.Parent()
+		idx := -1
+		for i, q := range fn.Params {
+			if q == t {
+				idx = i
+			}
+		}
+		sites := c13CallSites(p)[origin(fn)]
+		if idx < 0 || len(sites) == 0 {
+			return nil, false
+		}
+		var first *ssa.Const
+		for _, s := range sites {
+			if idx >= len(s.Common().Args) {
+				return nil, false
+			}
+			k, ok := c13ConstSize(p, s.Common().Args[idx], depth+1)
+			if !ok || k.Value == nil {
+				return nil, false
+			}
+			if first != nil && first.Int64() != k.Int64() {
+				return nil, false
+			}
+			first = k
+		}
+		return first, first != nil
+	}
+	return nil, false
 }
